@@ -958,7 +958,7 @@ class TextXVisitor(RRELVisitor):
             # multiple assignment to the same attribute.
 
             # Cannot use operator ?= on multiple assignments
-            if op == "?=":
+            if op == "?=" or cls._tx_attrs[attr_name].bool_assignment:
                 line, col = self.grammar_parser.pos_to_linecol(node.position)
                 raise TextXSemanticError(
                     'Cannot use "?=" operator on multiple'
